@@ -64,6 +64,7 @@ func (s *Service) newWSConn(request *http.Request, protocol int) *wsConn {
 
 	s.conns[conn.cid] = conn
 	s.wg.Add(1)
+	verifhook.Note("newconn", conn.cid)
 
 	// Start an output worker that handles calls to wsConn.Enqueue and wsConn.EnqueueSend
 	go conn.outputWorker()
